@@ -110,7 +110,7 @@ func genTCP(rn *runner, r *vc.Rand, thorough bool) {
 	// (2) faults: refused writes at every index, full close (writes refused once the side's tail was seen)
 	rounds := 500
 	if thorough {
-		rounds = 8000
+		rounds = 25000
 	}
 	for i := 0; i < rounds; i++ {
 		mk := func() (string, int) {
@@ -238,6 +238,40 @@ func genUDP(rn *runner, r *vc.Rand, thorough bool) {
 			}
 		}
 	}
+	// (1b) reads that end inside / right after the 2-byte prefix of records whose high length byte is not 0
+	lens := []int{1, 255, 256, 257, 300, 1000}
+	nps := 12
+	if thorough {
+		nps = 150
+	}
+	for i := 0; i < nps; i++ {
+		var tds []string
+		var bounds []int
+		off := 0
+		for j := 0; j < 2+r.Intn(3); j++ {
+			l := lens[(i+j*5+r.Intn(2))%len(lens)]
+			tds = append(tds, fmt.Sprintf("z%dx%d", l, 1+r.Intn(250)))
+			bounds = append(bounds, off)
+			off += 2 + l
+		}
+		for delta := 0; delta <= 2; delta++ {
+			// every record boundary + delta is a read boundary
+			var sizes []int
+			prev := 0
+			for _, b := range bounds {
+				if b+delta > prev {
+					sizes = append(sizes, b+delta-prev)
+					prev = b + delta
+				}
+			}
+			rn.add(udpLine("hold", nil, vc.Pick(r, []string{"eof", "err"}), r.Intn(3) == 0, tds, uncut, "-", sizes, ""), "udp:prefix-split")
+			cut := bounds[len(bounds)-1] + delta
+			rn.add(udpLine("eof", []string{"7172"}, "eof", false, tds, cut, "-", sizes[:len(sizes)-1], "ut"), "udp:prefix-split")
+		}
+		if i%4 == 0 {
+			rn.add(udpLine("hold", nil, "eof", false, tds[:2], uncut, "-", ones(encLen(tds[:2])), ""), "udp:prefix-split")
+		}
+	}
 	// (2) malformed streams: illegal zero length after / instead of records, random bytes with small length fields
 	for _, tds := range [][]string{{}, {"6162"}, {"61", "626364"}} {
 		for _, junk := range []string{"0000", "00", "000061", "0000ffff", "0001", "0003aabb", "ffff01"} {
@@ -250,7 +284,7 @@ func genUDP(rn *runner, r *vc.Rand, thorough bool) {
 	}
 	rounds := 200
 	if thorough {
-		rounds = 4000
+		rounds = 12000
 	}
 	for i := 0; i < rounds; i++ {
 		n := r.Intn(14)
@@ -320,6 +354,11 @@ func genUDP(rn *runner, r *vc.Rand, thorough bool) {
 			for _, sc := range interleavings('u', 't', 3, 3) {
 				rn.add(udpLine(utail, []string{"6162", "63"}, ttail, false, []string{"78", "797a"}, uncut, "-", []int{4}, sc), "udp:interleave-all")
 			}
+			if thorough {
+				for _, sc := range interleavings('u', 't', 4, 4) {
+					rn.add(udpLine(utail, []string{"6162", "t", "63"}, ttail, false, []string{"78", "797a", "7b"}, 9, "-", []int{3, 4}, sc), "udp:interleave-all")
+				}
+			}
 			for _, sc := range interleavings('u', 't', 2, 3) {
 				rn.add(udpLine(utail, []string{"61"}, ttail, sc[0] == 'u', []string{"78", "797a"}, 5, "-", []int{2}, sc), "udp:interleave-all")
 			}
@@ -328,7 +367,7 @@ func genUDP(rn *runner, r *vc.Rand, thorough bool) {
 	// (6) random mix
 	rounds = 300
 	if thorough {
-		rounds = 6000
+		rounds = 25000
 	}
 	for i := 0; i < rounds; i++ {
 		var evs []string
